@@ -77,6 +77,21 @@ func c06Sources() []srcHello {
 				return u.ApplyPreset(sp)
 			})
 		}
+		// hellos carrying quic_transport_parameters (a type the library knows but cannot decode:
+		// representable only with blunt mimicry, which must then keep the body)
+		for i, mk := range []func() tls.TLSExtension{
+			func() tls.TLSExtension {
+				return &tls.QUICTransportParametersExtension{TransportParameters: tls.TransportParameters{tls.MaxIdleTimeout(30000), tls.InitialMaxData(1 << 20), tls.InitialSourceConnectionID(rep(7, 8))}}
+			},
+			func() tls.TLSExtension { return &tls.GenericExtension{Id: 57, Data: []byte{1, 2, 0x67, 0x65, 3, 1, 9}} },
+		} {
+			mk := mk
+			add(fmt.Sprintf("quic-transport-parameters/%d", i), peer.ClientConfig("example.com"), tls.HelloCustom, func(u *tls.UConn) error {
+				sp := handshakeSpec("tls13-minimal")
+				sp.Extensions = append(sp.Extensions, mk())
+				return u.ApplyPreset(sp)
+			})
+		}
 	})
 	return c06Src
 }
@@ -271,7 +286,7 @@ func c06Scenarios(thorough bool) []*explore.Scenario {
 func init() {
 	register(&Prop{ID: "C06", Level: "exploration", Variant: "A", Scenarios: c06Scenarios,
 		Run: func(c *explore.Check, thorough bool) {
-			c.Rule = "wire hello of every ID (2 SNI lengths, 3 seeds per randomized kind), every generated custom spec (singletons, pairs, everything-once) and resumption-capture shapes (PSK with/without padding) x all 8 Fingerprinter flag sets: FingerprintClientHello -> ApplyPreset -> build with a different server name of the same length; normalised hello (GREASE, per-connection parts masked with sizes kept) and total length must be equal, and a second fingerprint/build round must reproduce the first. Allowed: error without AllowBluntMimicry; appended padding under AlwaysAddPadding; PSK dropped under RealPSKResumption. Plus every source x 8 second sources parsed by FromRaw into ONE spec variable: the value copy kept after the first parse must still reproduce the first hello and the variable the second. distinct = (source, flags)"
+			c.Rule = "wire hello of every ID (2 SNI lengths, 3 seeds per randomized kind), every generated custom spec (singletons, pairs, everything-once) resumption-capture shapes (PSK with/without padding) and hellos carrying quic_transport_parameters x all 8 Fingerprinter flag sets: FingerprintClientHello -> ApplyPreset -> build with a different server name of the same length; normalised hello (GREASE, per-connection parts masked with sizes kept) and total length must be equal, and a second fingerprint/build round must reproduce the first. Allowed: error without AllowBluntMimicry; appended padding under AlwaysAddPadding; PSK dropped under RealPSKResumption. Plus every source x 8 second sources parsed by FromRaw into ONE spec variable: the value copy kept after the first parse must still reproduce the first hello and the variable the second. distinct = (source, flags)"
 			c.Assumptions = []string{"normaliser (mc/props/norm.go) masks exactly the per-connection material the property lists"}
 			runAll(c, c06Scenarios(thorough), 0)
 			c.Gate(c.Total.Counters["compared"] > 2000, "non-vacuity: %d comparisons", c.Total.Counters["compared"])
